@@ -72,6 +72,24 @@ def gen_cases(rng, tier):
         c = {'op': op, 'cls': rng.choice(MUTABLE if op == 'replace' else CLASSES), 'data': data, 'pat': pat, 'start': a, 'end': b, 'ba': ba, 'opt_ba': False,
              'ptype': 'bits', 'count': rng.choice([None, 1, 2, 2, 3, 4]), 'new': rand_bits(rng, rng.choice([0, 1, pl, 3]))}
         yield c
+    # the same searches under options.lsb0 (positions counted from the other end; the chunked scan from the end backwards for long data)
+    for i in range(120 if tier == 'quick' else 2500):
+        n = rand_len(rng, tier)
+        if i % 20 == 0: n = rng.choice([8200, 8300, 9000] if tier == 'quick' else [8193, 8200, 9000, 16390, 16500, 20000])
+        pl = rng.choice([1, 2, 3, 4, 8, 8, 16, 5, 13])
+        pat = rand_bits(rng, pl, rng.choice(['rand', 'rand', 'ones', 'periodic']))
+        data = rand_bits(rng, n, rng.choice(['rand', 'sparse', 'zeros', 'periodic'])) if n <= 3000 else '0' * n
+        data = plant(rng, data, pat, rng.randrange(1, 5))
+        if n > 8192 and pat:
+            l = list(data)
+            for b in range(8192, n, 8192):
+                for p_ in rng.sample([b - pl - 1, b - pl, b - pl + 1, b - 1, b, b + 1, b + 2], 2):
+                    m = n - p_ - pl
+                    if 0 <= m and m + pl <= n: l[m:m + pl] = list(pat)
+            data = ''.join(l)
+        a, b = rand_window(rng, len(data)) if i % 3 else (None, None)
+        yield {'op': rng.choice(['find', 'rfind', 'findall', 'findall', 'contains']), 'cls': rng.choice(CLASSES), 'data': data, 'pat': pat, 'start': a, 'end': b,
+               'ba': rng.choice([None, False, True]), 'opt_ba': False, 'ptype': 'bits', 'count': rng.choice([None, None, 1, 2, 5]), 'lsb0': True}
     if tier == 'thorough':
         for n in range(0, 9):
             for v in range(1 << n):
@@ -98,6 +116,7 @@ def run_impl(c):
     kw = {}
     if c['ba'] is not None: kw['bytealigned'] = c['ba']
     def f():
+        if c.get('lsb0'): bitstring.options.lsb0 = True      # data and pattern are built under msb0; only the search runs under lsb0
         if op == 'find': return list(s.find(mkpat(c), c['start'], c['end'], **kw))
         if op == 'rfind': return list(s.rfind(mkpat(c), c['start'], c['end'], **kw))
         if op == 'findall': return list(s.findall(mkpat(c), c['start'], c['end'], c['count'], **kw))
@@ -117,6 +136,7 @@ def eff_ba(c):
 
 def expected(c):
     op, d, p = c['op'], c['data'], c['pat']
+    if c.get('lsb0'): d, p = d[::-1], p[::-1]      # searching under lsb0 = searching the mirrored pattern in the mirrored data (positions counted from the other end)
     ba = eff_ba(c)
     if op == 'find': return R.call(lambda: list(R.find(d, p, c['start'], c['end'], ba)))
     if op == 'rfind': return R.call(lambda: list(R.rfind(d, p, c['start'], c['end'], ba)))
@@ -146,14 +166,15 @@ def cob(x): return copt(x, cz)
 def coq_check(c, obs):
     op = c['op']
     if len(c['data']) > 3000 and op in ('split', 'replace', 'cut'): return None
+    if len(c['data']) > 10000: return None
     D, P = cbits(c['data']), cbits(c['pat'])
     S, E, BA = cob(c['start']), cob(c['end']), cbool(eff_ba(c))
     if op in ('find', 'rfind'):
         o = ('ok', obs[1][0] if obs[1] else None) if obs[0] == 'ok' else obs
-        return f"res_eqb (opt_eqb Z.eqb) (bs_{op} false {D} {P} {S} {E} {BA}) {cres(o, cob)}"
+        return f"res_eqb (opt_eqb Z.eqb) (bs_{op} {cbool(bool(c.get('lsb0')))} {D} {P} {S} {E} {BA}) {cres(o, cob)}"
     if op == 'findall':
-        return f"res_eqb zlist_eqb (bs_findall false {D} {P} {S} {E} {cob(c['count'])} {BA}) {cres(obs, lambda l: clist(l, cz))}"
-    if op == 'contains': return f"rbool_eqb (bs_contains false {D} {P}) {cres(obs, cbool)}"
+        return f"res_eqb zlist_eqb (bs_findall {cbool(bool(c.get('lsb0')))} {D} {P} {S} {E} {cob(c['count'])} {BA}) {cres(obs, lambda l: clist(l, cz))}"
+    if op == 'contains': return f"rbool_eqb (bs_contains {cbool(bool(c.get('lsb0')))} {D} {P}) {cres(obs, cbool)}"
     if op in ('startswith', 'endswith'): return f"rbool_eqb (bs_{op} false {D} {P} {S} {E}) {cres(obs, cbool)}"
     if op == 'count':
         return f"(bs_count {D} {cbool(bool(c['v']))} =? {obs[1]})" if obs[0] == 'ok' else 'false'
